@@ -1,0 +1,33 @@
+# Verification hooks (inactive unless the environment variable QLASSKIT_VERIF is set to "1").
+#
+# When active, a few points of the compiler report what they did (which ancilla was handed out,
+# in which order a set of operand qubits was iterated, which qubit a statement ended up on ...)
+# to a sink installed by the caller, or as JSON lines to the file named by QLASSKIT_VERIF_TRACE.
+# Nothing else in the library depends on this module.
+
+import json
+import os
+
+ON = os.environ.get("QLASSKIT_VERIF") == "1"
+
+_sink = None
+_seq = 0
+
+
+def set_sink(fn):
+    """Install a callable(ev: str, fields: dict) receiving the events (None to remove it)"""
+    global _sink
+    _sink = fn
+
+
+def emit(ev, **fields):
+    global _seq
+    _seq += 1
+    if _sink is not None:
+        _sink(ev, fields)
+        return
+
+    path = os.environ.get("QLASSKIT_VERIF_TRACE")
+    if path:
+        with open(path, "a") as f:
+            f.write(json.dumps({"seq": _seq, "ev": ev, **fields}, default=str) + "\n")
